@@ -5209,3 +5209,49 @@ func c02r12(c *Ctx, r *Report) {
 	}
 	r.floor("(text, normalize) pairs handed to the matchers", n, 2)
 }
+
+// c19r11: readFiles walks the given roots one after the other and remembers whether all walks succeeded.
+// Whether a root is walked must not depend on how the roots before it fared (D44: `noerr = noerr && (Walk(..)
+// == nil)` short-circuits: after one root that cannot be walked — it does not exist — all later roots were
+// skipped silently).
+func c19r11(c *Ctx, r *Report) {
+	l := c.L
+	r.rule("C19-R11", "A (the walk of a root does not depend on earlier walks)", "P1",
+		"in Reader.readFiles, the call of fastwalk.Walk is control dependent on no value carried around the loop over the roots",
+		"--walker-root with a root that cannot be walked silently drops every root listed after it")
+	rf := l.Fn("fzf", "(*Reader).readFiles")
+	if rf == nil {
+		r.unest("anchors", token.NoPos, nil, "anchor Reader.readFiles", "cannot resolve")
+		return
+	}
+	cc := cdCache{}
+	n := 0
+	eachInstr(rf, func(in ssa.Instruction) {
+		call, ok := in.(*ssa.Call)
+		if !ok || !strings.HasSuffix(calleeName(call.Common()), "fastwalk.Walk") {
+			return
+		}
+		n++
+		bad := ""
+		for cond := range cc.of(in) {
+			for w := range backwardSlice(cond, nil, nil) {
+				phi, ok := w.(*ssa.Phi)
+				if !ok {
+					continue
+				}
+				// a loop-carried boolean: a phi one of whose edges comes from a block it dominates
+				if bt, ok := phi.Type().Underlying().(*types.Basic); !ok || bt.Kind() != types.Bool {
+					continue
+				}
+				for _, p := range phi.Block().Preds {
+					if phi.Block().Dominates(p) {
+						bad = l.pos(cond.Pos())
+					}
+				}
+			}
+		}
+		r.check(bad == "", fmt.Sprintf("%s:walk #%d runs for every root", relName(rf), n), call.Pos(), rf,
+			"unconditional inside the loop", "the walk is skipped depending on a flag carried from the previous roots")
+	})
+	r.floor("calls of fastwalk.Walk", n, 1)
+}
